@@ -71,90 +71,6 @@ def expect(b1, b2, h, c, a):
     return ("Err(SyntaxError)" if b1 < 128 else "Err(InvalidCharacter)"), keep, 1
 
 
-# ---- reference lexer for the self-delimiting data elements (IEEE 488.2 7.7.4 - 7.7.7) -----------------------------------
-
-def _after(data, pos):
-    """white space after a data element, then a separator / terminator / end: -> consumed or None"""
-    # the library's white space after a datum includes a trailing NL (the terminator is then not reported as a separate
-    # element; see DESIGN.md, observation O1): positions are compared after that white space
-    while pos < len(data) and data[pos] in (9, 10, 12, 13, 32):
-        pos += 1
-    if pos < len(data) and data[pos] not in b",;\n":
-        return None
-    return pos
-
-
-def ref_element(data):
-    """-> ("Ok", kind, payload, consumed) | ("Err",) for input starting with a string / block / non-decimal / expression"""
-    c = data[0:1]
-    if c in (b'"', b"'"):
-        q = data[0]
-        i = 1
-        while True:
-            if i >= len(data):
-                return ("Err",)
-            if data[i] == q:
-                if i + 1 < len(data) and data[i + 1] == q:
-                    i += 2
-                    continue
-                break
-            if data[i] >= 128:
-                return ("Err",)
-            i += 1
-        end = _after(data, i + 1)
-        return ("Ok", "StringProgramData", data[1:i], end) if end is not None else ("Err",)
-    if c == b"(":
-        i = 1
-        while i < len(data) and data[i] != ord(")"):
-            if data[i] in b"\"';(" or data[i] >= 128:
-                return ("Err",)
-            i += 1
-        if i >= len(data):
-            return ("Err",)
-        end = _after(data, i + 1)
-        return ("Ok", "ExpressionProgramData", data[1:i], end) if end is not None else ("Err",)
-    if c == b"#" and len(data) > 1 and 48 <= data[1] <= 57:
-        d = data[1] - 48
-        if d == 0:
-            rest = data[2:]
-            if not rest or rest[-1] != 10:
-                return ("Err",)
-            return ("Ok", "ArbitraryBlockData", rest[:-1], len(data))
-        digs = data[2:2 + d]
-        if len(digs) != d or not digs.isdigit():
-            return ("Err",)
-        n = int(digs)
-        pay = data[2 + d:2 + d + n]
-        if len(pay) != n:
-            return ("Err",)
-        end = _after(data, 2 + d + n)
-        return ("Ok", "ArbitraryBlockData", pay, end) if end is not None else ("Err",)
-    if c == b"#" and len(data) > 1:
-        radix = {72: 16, 104: 16, 81: 8, 113: 8, 66: 2, 98: 2}.get(data[1])
-        if radix is None:
-            return ("Err",)
-        i = 2
-        digits = b"0123456789abcdef"[:radix]
-        while i < len(data) and bytes([data[i]]).lower() in [bytes([x]) for x in digits]:
-            i += 1
-        if i == 2:
-            return ("Err",)
-        v = int(data[2:i], radix)
-        if v >= 2 ** 64:
-            return ("Err",)
-        end = _after(data, i)
-        return ("Ok", "NonDecimalNumericProgramData", v, end) if end is not None else ("Err",)
-    return ("Err",)
-
-
-ELEMENT_INPUTS = [
-    b'"abc"', b"'abc'", b'""', b"''", b'"a""b"', b"'a''b'", b'"it\'s"', b"'say \"hi\"'", b'"""', b'""""', b'"abc', b"'abc", b'"abc" ,1', b'"abc";', b'"abc"\n', b'"abc"x', b'"abc" x', b'"a\xffb"', b'"a,b;c"', b'"a"" "',
-    b"(@1,2)", b"(1:3)", b"()", b"(abc", b"(a(b)", b'(a"b)', b"(a;b)", b"(a) ,", b"(a)x", b"(a\xe9)", b"(a'b)",
-    b"#10", b"#13abc", b"#13abc,", b"#13abc ;", b"#13ab", b"#13abcd", b"#210abcdefghij", b"#210abcdefghi", b"#1", b"#2", b"#21", b"#1x", b"#14\xff;,\n", b"#14\xff;,\nX", b"#0abc\n", b"#0abc", b"#0", b"#0\n", b"#0a\nb\n", b"#3001x", b"#3001",
-    b"#HFF", b"#hff", b"#Q17", b"#q17", b"#B101", b"#b101", b"#H", b"#HG", b"#Q8", b"#B2", b"#X10", b"#HFF ,", b"#HFFG", b"#HFFFFFFFFFFFFFFFF", b"#H10000000000000000", b"#B1 ;", b"#Q7x",
-]
-
-
 def run(R, tier):
     R.configs.append("dflt")
     P = D.prog()
@@ -212,79 +128,8 @@ def run(R, tier):
     extra = {f: sorted(w - allowed) for f, w in writers.items() if w - allowed}
     R.check(not extra and writers, "R04.7", "flag-writers", "lexer flags are written only by Tokenizer::next and the constructors (readers leave them alone)", "lexer flags written elsewhere: %s" % extra)
 
-    # ---- R04.8 whole-element tables for the self-delimiting data elements ------------------------------------------------------
-    # Tokenizer::next is interpreted (all tokenizer functions in place, lexical-core's integer parsers by contract) on
-    # complete representative inputs; kind, payload and number of bytes consumed must equal the reference lexer's.
-    def m_parse_usize(eng, st, fr, t, name, rname, args):
-        b_ = M._bytes_of(eng, st, args[0])
-        g = tuple(t["callee"].get("gargs") or ())
-        if b_ is None:
-            return NotImplemented
-        txt = bytes(b_)
-        if txt.isdigit() and int(txt) < 2 ** 64:
-            return fdai.mk_ok(K(int(txt)))
-        return fdai.mk_err(SymV("lexical-error", "lexical-error"))
-
-    def m_parse_partial_radix(eng, st, fr, t, name, rname, args):
-        b_ = M._bytes_of(eng, st, args[0])
-        g = eng.concrete_gargs(st, t["callee"])
-        if b_ is None or len(g) < 2 or not str(g[1]).isdigit():
-            return NotImplemented
-        radix = (int(g[1]) >> 104) & 0xFF
-        digits = "0123456789abcdefghijklmnopqrstuvwxyz"[:radix]
-        txt = bytes(b_)
-        i = 0
-        while i < len(txt) and chr(txt[i]).lower() in digits:
-            i += 1
-        v = int(txt[:i], radix) if i else 0
-        adt, tab = CV.lexical_error_table(eng)
-        if v >= 2 ** 64 and tab:
-            d = [k for k, n_ in tab.items() if n_ == "Overflow"]
-            return fdai.mk_err(EnumV(adt, "Overflow", d[0] if d else 0, {0: K(i)}))
-        return fdai.mk_ok(AggV("tuple", {0: K(v), 1: K(i)}))
-
-    models8 = dict(M.FOLD_MODELS)
-    models8["lexical_core::parse"] = m_parse_usize
-    models8["lexical_core::parse_partial_with_options"] = m_parse_partial_radix
-    eng8 = fdai.Engine(P, u, inline=lambda n, r: r.startswith("scpi::parser::tokenizer::") or ("tokenizer::Tokenizer" in r and r.startswith("<")), models=models8, loop_limit=80, max_paths=32)
-    nb = LX.tokenizer_next_body(u)
-    tk_fields = LX.tokenizer_fields(u)
-    bad = {}
-    n8 = 0
-    for data in ELEMENT_INPUTS:
-        n8 += 1
-        st = fdai.State()
-        st.extra["bytes"] = list(data)
-        vals = {"chars": M.mk_bytes_iter(0), "in_header": K(False), "in_common": K(False), "after_data": K(False)}
-        cell = Cell(AggV(LX.TOKENIZER, {i: vals.get(nm, TOP) for i, nm in enumerate(tk_fields)}), "tokenizer")
-        st.extra["tk"] = cell
-        kind = "string" if data[:1] in (b'"', b"'") else "expression" if data[:1] == b"(" else "block" if data[1:2].isdigit() else "non-decimal"
-        try:
-            res = eng8.run(nb, [RefV(cell, (), True)], st)
-        except (fdai.TooManyPaths, RecursionError) as e:
-            bad.setdefault(kind, []).append("%r: undecided (%s)" % (data, type(e).__name__))
-            continue
-        exp = ref_element(data)
-        got = None
-        if len(res) == 1 and res[0].outcome == "return" and isinstance(res[0].retval, EnumV) and res[0].retval.name == "Some":
-            x = res[0].retval.fields.get(0)
-            if isinstance(x, EnumV) and x.name == "Err":
-                got = ("Err",)
-            elif isinstance(x, EnumV) and x.name == "Ok" and isinstance(x.fields.get(0), EnumV):
-                tok = x.fields[0]
-                pay = tok.fields.get(0)
-                pv = pay.v if isinstance(pay, K) else M._bytes_of(eng8, res[0], pay)
-                tkc = res[0].extra.get("tk")
-                ch = tkc.v.fields.get(tk_fields.index("chars")) if tkc is not None and isinstance(tkc.v, AggV) else None
-                pos = ch.fields[0].v if isinstance(ch, AggV) and isinstance(ch.fields.get(0), K) else None
-                got = ("Ok", tok.name, bytes(pv) if isinstance(pv, (bytes, bytearray, list)) else pv, pos)
-        elif len(res) == 1 and res[0].outcome in ("panic", "diverge"):
-            got = ("panic",)
-        if got != exp:
-            bad.setdefault(kind, []).append("%r: lexed as %s, IEEE 488.2 7.7 gives %s" % (data, got if got else [(r.outcome, r.retval) for r in res][:2], exp))
-    for kind in ("string", "expression", "block", "non-decimal"):
-        R.check(not bad.get(kind), "R04.8", "element:" + kind, "kind, payload and consumed bytes equal the reference lexer on every representative input", "; ".join((bad.get(kind) or [])[:4]), where=nb.span)
-    R.count("element_inputs", n8)
+    # ---- R04.8 whole-element tables (sa/rules/lexer.py: element_table) -----------------------------------------------------
+    LX.check_elements(R, "R04.8", ("mnemonic", "chardata", "decimal", "string", "expression", "block", "non-decimal", "separator"))
 
     # ---- R04.1 length limits ----------------------------------------------------------------------------------
     for reader, err in (("read_mnemonic", "ProgramMnemonicTooLong"), ("read_character_data", "CharacterDataTooLong"), ("read_suffix_data", "SuffixTooLong")):
